@@ -44,9 +44,12 @@ def run(ctx):
         try:
             fn, calls, ret = submit_argv(ctx, mod, cname, IDS)
             fn0, calls0, _ret0 = submit_argv(ctx, mod, cname, [])
-        except (Raised, Unsupported) as exc:
-            r1.violation(con, f"the submit command line cannot be derived from the source ({exc})", f"src/{mod.replace('.', '/')}.py")
+        except Raised as exc:
+            r1.violation(con, f"submitting a target (with and without prerequisites) raises {exc.kind}: {exc.detail[:100]}", f"src/{mod.replace('.', '/')}.py")
             continue
+        except Unsupported as exc:   # the checker's interpreter meets a construct it does not model: no verdict, the check is broken for this tree
+            from ..loader import AnalysisError
+            raise AnalysisError(f"{con}: the submit command line cannot be derived from the source ({exc})")
         sub = [c for c in calls if c[0] == exes[name]]
         if len(sub) != 1:
             r1.violation(con + "::submit", f"{len(sub)} `{exes[name]}` commands are issued for one target (exactly one expected)", fn.where)
